@@ -553,7 +553,13 @@ func RunParent(o ParentOpts) int {
 		"known_findings": knownHits,
 	}
 	b, _ := json.MarshalIndent(ev, "", " ")
-	os.WriteFile(filepath.Join(root, "evidence", o.CheckID+".json"), append(b, '\n'), 0o644)
+	evName := o.CheckID
+	if sfx := os.Getenv("VERIF_EVIDENCE_SUFFIX"); sfx != "" {
+		// a supplementary pass keeps its own report (merged into the check's evidence by run.sh)
+		os.WriteFile(filepath.Join(root, ".build", evName+sfx+".json"), append(b, '\n'), 0o644)
+	} else {
+		os.WriteFile(filepath.Join(root, "evidence", evName+".json"), append(b, '\n'), 0o644)
+	}
 
 	fmt.Printf("SUMMARY property=%s tier=%s evaluations=%d nontrivial=%d skipped=%d outcomes=%d states=%d transitions=%d exhaustive=%v violations=%d known=%d unreproduced=%d wall=%.1fs\n",
 		o.CheckID, o.Tier, evals, nontriv, skipped, len(outcomes), merged.States, merged.Transitions, exhaustive, violations, knownHits, len(unrepro), time.Since(start).Seconds())
@@ -640,6 +646,9 @@ func fatalClass(stderr string) string {
 	for _, line := range strings.Split(stderr, "\n") {
 		if strings.HasPrefix(line, "fatal error: ") {
 			return MsgClass(strings.TrimPrefix(line, "fatal error: "))
+		}
+		if strings.HasPrefix(line, "WARNING: DATA RACE") {
+			return "data_race_reported_by_the_go_race_detector"
 		}
 		if strings.Contains(line, "goroutine stack exceeds") {
 			return "stack_overflow"
